@@ -648,7 +648,7 @@ func h(s string) []byte { b, _ := hex.DecodeString(s); return b }
 func TestC34_Records(t *testing.T) {
 	r := evid.Get(id)
 	evid.Finish(t, r)
-	r.SetRule("rapid: secp256k1 key (32 bytes reduced into 1..N-1) x network id (small or any uint64) x underlay (ip4/ip6/dns4/dns6/dns host, tcp|udp|udp+quic, with or without /p2p/<id>) -> own record from aurora.NewAddress with the repository's signer; checked at 5 acceptance points (aurora.ParseAddress; handshake.Handshake and handshake.Handle through verifx with the peer's messages scripted on a stream; routetab.FindUnderlay reply through a scripted Streamer; routetab onRouteResp underlay list) that it is accepted and returned/stored unchanged; then 4..8 single-field mutants per case, each sent to one drawn acceptance point: underlay byte xor / another valid underlay / truncate / extend, overlay byte xor / truncate / extend, verifier network id +-k (ack claiming either id), signature R|S byte xor / recovery byte replaced / 64 or 66 bytes / signed by a foreign key, and the two underlay|overlay boundary shifts that keep the signed bytes identical; oracle: rejected with ErrInvalidAddress / ErrInvalidAck / ErrNetworkIDIncompatible(netid only) and nothing written to the address book; recovery bytes selecting the same recovery id are excluded and counted; non-trivial = case with at least one judged mutant; distinct by hash of the case")
+	r.SetRule("rapid: secp256k1 key (32 bytes reduced into 1..N-1) x network id (small or any uint64) x underlay (ip4/ip6/dns4/dns6/dns host, tcp|udp|udp+quic, with or without /p2p/<id>) -> own record from aurora.NewAddress with the repository's signer; checked at 5 acceptance points (aurora.ParseAddress; handshake.Handshake and handshake.Handle through verifx with the peer's messages scripted on a stream; routetab.FindUnderlay reply through a scripted Streamer; routetab onRouteResp underlay list) that it is accepted and returned/stored unchanged; then 4..8 single-field mutants per case, each sent to one drawn acceptance point: underlay byte xor / another valid underlay / truncate / extend, overlay byte xor / truncate / extend, verifier network id +-k (ack claiming either id), signature R|S byte xor / recovery byte replaced / 64 or 66 bytes / signed by a foreign key, and the two underlay|overlay boundary shifts that keep the signed bytes identical; oracle: rejected with ErrInvalidAddress / ErrInvalidAck / ErrNetworkIDIncompatible(netid only) and nothing written to the address book; recovery bytes selecting the same recovery id are excluded and counted; non-trivial = case with at least one judged mutant; distinct by hash of the case. Wire test: the node runs a whole handshake with an honest scripted peer in either role, with an address resolver that answers the observed address or a configured other one; the record the node wrote into its SynAck/Ack must pass aurora.ParseAddress for its network id, carry its overlay and advertise the resolver's answer; non-trivial = resolver answers a configured address")
 	r.Note(recoveryByteNote)
 
 	// deterministic sweep: one fixed identity, every mutation kind at every acceptance point
